@@ -439,9 +439,11 @@ func c21Coq(cs c21Case, r c21Run) string {
 func c21Gen(r *vRand) c21Case {
 	cs := c21Case{Brokers: r.Range(1, 3)}
 	names := []string{"a", "b", "orders"}
+	// names CreateTopic must reject (ValidTopicName) but that the operator can publish
+	odd := []string{"", "a/b", "..", ".", "t:1", strings.Repeat("n", 250), "x.y-z_1", strings.Repeat("m", 249)}
 	pick := func() string {
-		if r.Chance(4) {
-			return ""
+		if r.Chance(10) {
+			return odd[r.Intn(len(odd))]
 		}
 		return names[r.Intn(len(names))]
 	}
@@ -466,6 +468,8 @@ func c21Gen(r *vRand) c21Case {
 				nm := names[r.Intn(len(names))]
 				if r.Chance(10) {
 					nm = "crd-only"
+				} else if r.Chance(8) {
+					nm = "a/b" // not a name a broker would create, but resources are not validated here
 				}
 				if used[nm] {
 					continue
